@@ -18,6 +18,9 @@ type Scenario struct {
 	Resume *Resume `json:"resume,omitempty"`
 	// what to do after the connection is up
 	Probe bool `json:"probe,omitempty"`
+	// PreludeKey: before the exchange under test, another client object of the same process - configured with this
+	// other RSA key - completes a key exchange with a server that holds it
+	PreludeKey *refsrv.RSAKeyJSON `json:"prelude_key,omitempty"`
 	// Aftermath: what the server, which considers the key established, sends after a key exchange the client aborted at
 	// its last step: "new-session", "bad-salt", "update" ("" = nothing)
 	Aftermath string       `json:"aftermath,omitempty"`
